@@ -295,6 +295,29 @@ def check(run, ctx):
             (run.ok(N5, rec["func"], rec["detail"]) if rec["ok"] else run.finding(N5, rec["func"], "partial-descent", f"{rec['func']}: {rec['detail']}", rec["loc"]))
     for rec in shared.collector_walkers(ctx, prefixes=(PKG,)):
         (run.ok(N5, rec["func"], rec["detail"]) if rec["ok"] else run.finding(N5, rec["func"], "pruned-walk", f"{rec['func']}: {rec['detail']}: functions nested below such a node are never analysed", rec["loc"]))
+    N7 = run.rule("N7", "the TypeScript and Rust depth calculators give up (depth 0) only when the function has no body: their early-exit guards are siblings", floor=2,
+                  decides="every function with a body gets its depth computed - a body the grammar parses with error nodes (JSX under the TypeScript grammar) included")
+    guards = {}
+    for lang, cq in (("typescript", f"{PKG}.typescript_analyzer.TypeScriptNestingAnalyzer.calculate_max_depth"), ("rust", f"{PKG}.rust_analyzer.RustNestingAnalyzer.calculate_max_depth")):
+        f = repo.func(cq)
+        early = [n for n in f.node.body if isinstance(n, ast.If) and any(isinstance(s_, ast.Return) for s_ in n.body)]
+        # normalise the tested name: the local bound to the body node
+        tests = []
+        for n in early:
+            names = sorted({x.id for x in ast.walk(n.test) if isinstance(x, ast.Name)})
+            txt = ast.unparse(n.test)
+            for i_, nm_ in enumerate(names):
+                txt = re.sub(rf"\b{re.escape(nm_)}\b", f"v{i_}", txt)
+            tests.append(txt)
+        guards[lang] = (tests, f)
+    allowed = {"not v0", "v0 is None"}
+    for lang, (tests, f) in guards.items():
+        extra = [t for t in tests if t not in allowed]
+        if extra:
+            run.finding(N7, f"{lang} calculate_max_depth", f"extra-early-exit:{extra[0]}", f"the {lang} depth calculator also returns depth 0 when `{extra[0]}`: functions whose body meets that condition are never reported, whatever their nesting", f.loc)
+        else:
+            run.ok(N7, f"{lang} calculate_max_depth", f"early exits {tests}: only for a missing body")
+
     N6 = run.rule("N6", "NestingDepthRule does not keep the parsed (language-dependent) NestingConfig on the rule instance without a language key", floor=1,
                   decides="the limit applied to a function is the one configured for its own language, whatever file the run saw first")
     from ..linters import Linters
